@@ -1384,6 +1384,230 @@ Proof.
   eapply rebase_push_pre; eassumption.
 Qed.
 
+(* ---------------------------------------------------------------- squash *)
+
+Lemma delete_all_iff : forall f t t' inc,
+  delete_patches f t = (t', inc) ->
+  forall m, In m (t_all t') <-> In m (t_all t) /\ f m = false.
+Proof.
+  intros f t t' inc H m. apply delete_spec in H as [keep [popped [Es [Ha [-> _]]]]].
+  apply split_at_first_spec in Es as [_ [Hk _]].
+  unfold t_all. rewrite t_applied_set_updated, t_unapplied_set_updated, t_hidden_set_updated,
+    t_applied_set_lists, t_unapplied_set_lists, t_hidden_set_lists.
+  rewrite Ha, !in_app_iff, !filter_In, !negb_true_iff. split.
+  - intros [Hm|[[Hm|Hm]|Hm]]; try tauto. split; [tauto|now apply Hk].
+  - tauto.
+Qed.
+
+Lemma delete_applied_sub : forall f t t' inc,
+  delete_patches f t = (t', inc) -> forall m, In m (t_applied t') -> In m (t_applied t).
+Proof.
+  intros f t t' inc H m Hm. apply delete_spec in H as [keep [popped [_ [Ha [-> _]]]]].
+  rewrite t_applied_set_updated, t_applied_set_lists in Hm. rewrite Ha. apply in_or_app. now left.
+Qed.
+
+Lemma try_squash_spec : forall t ps meta msg t1 o,
+  try_squash t ps meta msg = Some (t1, o) ->
+  exists b bc tr, In b ps /\ t_patch t b = Some bc
+    /\ t1 = set_objs t (t_objs t ++ [plain (parents_of (t_objs t) bc) tr meta msg])
+    /\ o = length (t_objs t).
+Proof.
+  intros t ps meta msg t1 o H. unfold try_squash in H.
+  destruct ps as [|b rest]; [discriminate|].
+  destruct (t_patch t b) as [bc|] eqn:Eb; [|discriminate].
+  destruct (squash_tree (t_objs t) t rest (tree_of (t_objs t) bc)) as [tr|]; [|discriminate].
+  unfold put in H. injection H as <- <-. exists b, bc, tr. split; [now left|]. auto.
+Qed.
+
+Lemma try_squash_wf : forall t ps meta msg t1 o,
+  wf_txn t -> try_squash t ps meta msg = Some (t1, o) ->
+  wf_txn t1 /\ is_patch_commit (t_objs t1) o /\ same_lists t t1.
+Proof.
+  intros t ps meta msg t1 o W H. apply try_squash_spec in H as (b & bc & tr & _ & Eb & -> & ->).
+  apply (wt_patch t W) in Eb. split; [|split].
+  - apply wf_txn_put; [exact W|]. apply patch_parents_plain; [apply W|exact Eb].
+  - rewrite t_objs_set_objs. now apply patch_commit_copy.
+  - repeat split.
+Qed.
+
+Lemma squash_finish_pre : forall newn o to_push (sp : bool) t,
+  wf_txn t -> names_ok (newn :: t_all t) -> is_patch_commit (t_objs t) o ->
+  NoDup to_push -> (forall n, In n to_push -> In n (t_all t) /\ ~ In n (t_applied t)) ->
+  exists t3, new_unapplied newn o 0 t = TOk t3 /\ wf_txn t3
+    /\ t_updated t3 = up_set (t_updated t) newn (Some o) /\ t_stack t3 = t_stack t
+    /\ NoDup (if sp then newn :: to_push else to_push)
+    /\ (forall n, In n (if sp then newn :: to_push else to_push) ->
+          In n (t_all t3) /\ ~ In n (t_applied t3)).
+Proof.
+  intros newn o to_push sp t W Hn Ho Hd Hin. unfold new_unapplied.
+  cbn [Nat.ltb Nat.leb insert_at].
+  set (t3 := set_updated _ _). exists t3. split; [reflexivity|].
+  assert (W3 : wf_txn t3).
+  { apply wf_txn_add; [exact W|exact Hn|exact Ho|]. apply Permutation_sym. apply Permutation_middle. }
+  assert (Hnew : ~ In newn (t_all t)) by (destruct Hn as [Hnd _]; now inversion Hnd).
+  assert (Hall3 : forall n, In n (t_all t3) <-> n = newn \/ In n (t_all t)).
+  { intros n. unfold t3, t_all. rewrite t_applied_set_updated, t_unapplied_set_updated, t_hidden_set_updated,
+      t_applied_set_lists, t_unapplied_set_lists, t_hidden_set_lists.
+    rewrite !in_app_iff. cbn [In]. split; [intros [H|[[H|H]|H]]; auto|].
+    intros [H|[H|[H|H]]]; auto. }
+  assert (Ha3 : t_applied t3 = t_applied t) by reflexivity.
+  split; [exact W3|]. split; [reflexivity|]. split; [reflexivity|]. split.
+  - destruct sp; [|exact Hd]. constructor; [|exact Hd]. intros Hi. apply Hin in Hi as [Hi _]. contradiction.
+  - intros n Hi. rewrite Hall3, Ha3.
+    assert (Hc : n = newn \/ In n to_push) by (destruct sp; [destruct Hi as [<-|Hi]; auto|auto]).
+    destruct Hc as [->|Hc].
+    + split; [now left|]. intros Ha. apply Hnew. apply in_all_cases. now left.
+    + destruct (Hin n Hc) as [H1 H2]. split; [now right|exact H2].
+Qed.
+
+Lemma squash_finish_wf : forall newn o to_push sp t,
+  wf_txn t -> names_ok (newn :: t_all t) -> is_patch_commit (t_objs t) o ->
+  NoDup to_push -> (forall n, In n to_push -> In n (t_all t) /\ ~ In n (t_applied t)) ->
+  good (squash_finish newn o to_push sp t).
+Proof.
+  intros newn o to_push sp t W Hn Ho Hd Hin. unfold squash_finish.
+  destruct (squash_finish_pre newn o to_push sp t W Hn Ho Hd Hin) as (t3 & -> & W3 & _ & _ & Hd3 & Hin3).
+  cbn [tbind].
+  eapply res_sat_impl; [apply push_patches_wf; [exact W3|exact Hd3|exact Hin3]|intros t' P; apply P].
+Qed.
+
+Definition squash_pre (ps : list name) (newn : name) (t : txn) : Prop :=
+  NoDup ps /\ incl ps (t_all t) /\ validate newn = true
+  /\ (forall m, In m (t_all t) -> collides newn m = true -> In m ps).
+
+Lemma squash_names_ok : forall ps newn t t' inc,
+  wf_txn t' -> validate newn = true ->
+  (forall m, In m (t_all t) -> collides newn m = true -> In m ps) ->
+  delete_patches (fun n => mem n ps) t = (t', inc) ->
+  names_ok (newn :: t_all t').
+Proof.
+  intros ps newn t t' inc W' Hv Hcol Ed. apply names_ok_cons; [apply W'|exact Hv|].
+  intros m Hm. apply (delete_all_iff _ _ _ _ Ed) in Hm as [Hm Hf].
+  destruct (collides newn m) eqn:Ec; [|reflexivity].
+  apply Hcol in Ec; [|exact Hm]. apply mem_In in Ec. cbv beta in Hf. congruence.
+Qed.
+
+(* after popping the patches to squash and pushing them back they sit on top, so deleting
+   them pops nothing else *)
+Lemma delete_top_no_extra : forall ps t t' inc keep,
+  t_applied t = keep ++ ps -> (forall x, In x keep -> ~ In x ps) ->
+  delete_patches (fun n => mem n ps) t = (t', inc) -> inc = [].
+Proof.
+  intros ps t t' inc keep Ha Hk Ed. unfold delete_patches in Ed.
+  assert (Es : split_at_first (fun n => mem n ps) (t_applied t) = (keep, ps)).
+  { rewrite Ha. replace keep with (firstn (length keep) (keep ++ ps)) at 2
+      by (rewrite firstn_app, Nat.sub_diag, firstn_all; cbn; apply app_nil_r).
+    replace ps with (skipn (length keep) (keep ++ ps)) at 3
+      by (rewrite skipn_app, Nat.sub_diag, skipn_all; reflexivity).
+    apply split_at_first_k.
+    - rewrite firstn_app, Nat.sub_diag, firstn_all. cbn. rewrite app_nil_r.
+      intros x Hx. apply mem_false. now apply Hk.
+    - rewrite skipn_app, Nat.sub_diag, skipn_all. cbn. intros y Hy. apply mem_In. now apply hd_error_In. }
+  rewrite Es in Ed. injection Ed as _ <-. apply filter_negmem_self.
+Qed.
+
+Lemma pop_keep_disjoint : forall f t t' inc,
+  pop_patches f t = (t', inc) ->
+  (forall x, In x (t_applied t') -> f x = false)
+  /\ (forall x, In x inc -> f x = false /\ In x (t_unapplied t') /\ In x (t_applied t)).
+Proof.
+  intros f t t' inc H. apply pop_spec in H as [keep [popped [Es [Ha [-> ->]]]]].
+  apply split_at_first_spec in Es as [_ [Hk _]]. split.
+  - rewrite t_applied_set_lists. exact Hk.
+  - intros x Hx. apply filter_In in Hx as [Hx Hf]. apply negb_true_iff in Hf. split; [exact Hf|]. split.
+    + rewrite t_unapplied_set_lists. apply in_or_app. left. apply filter_In. split; [exact Hx|].
+      now rewrite Hf.
+    + rewrite Ha. apply in_or_app. now right.
+Qed.
+
+Lemma pop_inc_nodup : forall f t t' inc,
+  NoDup (t_applied t) -> pop_patches f t = (t', inc) -> NoDup inc.
+Proof.
+  intros f t t' inc Hd H. apply pop_spec in H as [keep [popped [_ [Ha [_ ->]]]]].
+  rewrite Ha in Hd. apply NoDup_app_iff in Hd as [_ [Hd _]]. now apply NoDup_filter.
+Qed.
+
+Lemma squash_closure_wf : forall ps newn meta msg sp t,
+  wf_txn t -> squash_pre ps newn t -> good (squash_closure ps newn meta msg sp t).
+Proof.
+  intros ps newn meta msg sp t W (Hd & Hin & Hv & Hcol). unfold squash_closure.
+  destruct (try_squash t ps meta msg) as [[t1 o]|] eqn:Et.
+  - destruct (try_squash_wf _ _ _ _ _ _ W Et) as (W1 & Ho & Hs1).
+    pose proof (same_lists_all _ _ Hs1) as Ea1.
+    destruct (delete_patches (fun n => mem n ps) t1) as [t2 to_push] eqn:Ed.
+    destruct (delete_wf _ _ _ _ W1 Ed) as (W2 & Hdp & Hip).
+    pose proof (delete_objs (fun n => mem n ps) t1) as Eo. rewrite Ed in Eo. cbn [fst] in Eo.
+    apply squash_finish_wf; [exact W2| |now rewrite Eo|exact Hdp|].
+    + eapply squash_names_ok; [exact W2|exact Hv| |exact Ed]. now rewrite Ea1.
+    + intros n Hn. apply Hip in Hn. split; [apply in_all_cases; auto|].
+      pose proof (names_disjoint t2 (wt_names t2 W2)) as [_ [_ [_ [Hah _]]]].
+      intros Ha. destruct (Hah n Ha) as [Hx _]. contradiction.
+  - destruct (pop_patches (fun n => mem n ps) t) as [t1 to_push] eqn:Ep.
+    destruct (pop_wf _ _ _ _ W Ep) as [W1 Hp1].
+    destruct (pop_keep_disjoint _ _ _ _ Ep) as [Hk1 Hinc].
+    pose proof (names_disjoint t (wt_names t W)) as [Hda _].
+    pose proof (pop_inc_nodup _ _ _ _ Hda Ep) as Hdtp.
+    pose proof (names_disjoint t1 (wt_names t1 W1)) as [_ [_ [_ [Hah1 Huh1]]]].
+    eapply res_sat_tbind; [apply (push_patches_wf ps false t1 W1 Hd)|].
+    + intros n Hn. split.
+      * eapply Permutation_in; [apply Permutation_sym; exact Hp1|now apply Hin].
+      * intros Ha. apply Hk1 in Ha. apply mem_In in Hn. cbv beta in Ha. congruence.
+    + intros t2 (W2 & Ea2 & Eh2 & Hp2). cbv beta.
+      destruct (try_squash t2 ps meta msg) as [[t3 o]|] eqn:Et2; [|apply W2].
+      destruct (try_squash_wf _ _ _ _ _ _ W2 Et2) as (W3 & Ho & Hs3).
+      pose proof (same_lists_all _ _ Hs3) as Ea3. destruct Hs3 as [Eap3 _].
+      destruct (delete_patches (fun n => mem n ps) t3) as [t4 extra] eqn:Ed.
+      destruct extra; [|exact I].
+      destruct (delete_wf _ _ _ _ W3 Ed) as (W4 & _ & _).
+      pose proof (delete_objs (fun n => mem n ps) t3) as Eo. rewrite Ed in Eo. cbn [fst] in Eo.
+      assert (Hall2 : forall m, In m (t_all t2) <-> In m (t_all t)).
+      { intros m. split; intros Hm.
+        - eapply Permutation_in; [exact Hp1|]. eapply Permutation_in; [exact Hp2|exact Hm].
+        - eapply Permutation_in; [apply Permutation_sym; exact Hp2|].
+          eapply Permutation_in; [apply Permutation_sym; exact Hp1|exact Hm]. }
+      apply squash_finish_wf; [exact W4| |now rewrite Eo|exact Hdtp|].
+      * eapply squash_names_ok; [exact W4|exact Hv| |exact Ed].
+        intros m Hm. rewrite Ea3 in Hm. apply Hall2 in Hm. now apply Hcol.
+      * intros n Hn. destruct (Hinc n Hn) as (Hf & Hu1 & Ha0). split.
+        -- apply (delete_all_iff _ _ _ _ Ed). split; [|exact Hf]. rewrite Ea3. apply Hall2.
+           apply in_all_cases. now left.
+        -- intros Ha4. apply (delete_applied_sub _ _ _ _ Ed) in Ha4. rewrite Eap3, Ea2 in Ha4.
+           apply in_app_or in Ha4 as [Ha4|Ha4].
+           ++ destruct (Hah1 n Ha4) as [Hx _]. contradiction.
+           ++ apply mem_In in Ha4. cbv beta in Hf. congruence.
+Qed.
+
+Lemma squash_pre_begin : forall op o ps newn,
+  op_ok op -> NoDup ps -> incl ps (all_of (op_state op)) -> validate newn = true ->
+  negb (mem newn ps) && (match stack_collides (op_state op) newn with Some _ => true | None => false end) = false ->
+  squash_pre ps newn (begin_txn op o).
+Proof.
+  intros op o ps newn [_ [[Hn _] _]] Hd Hin Hv Hg. split; [exact Hd|]. split; [exact Hin|]. split; [exact Hv|].
+  change (t_all (begin_txn op o)) with (all_of (op_state op)). intros m Hm Hc.
+  apply andb_false_iff in Hg as [Hg|Hg].
+  - apply negb_false_iff in Hg. apply mem_In in Hg. destruct Hn as [_ [_ Hcf]].
+    rewrite <- (Hcf newn m (Hin _ Hg) Hm Hc). exact Hg.
+  - destruct (stack_collides (op_state op) newn) eqn:Ec; [discriminate|].
+    rewrite (stack_collides_none _ _ Ec m Hm) in Hc. discriminate.
+Qed.
+
+Lemma run_squash_inv : forall w r nm meta msg, Inv w -> Inv (fst (run_squash w r nm meta msg)).
+Proof.
+  intros w r nm meta msg Hi. unfold run_squash.
+  destruct (parse_ranges r) as [prs|] eqn:Epr; [|exact Hi].
+  destruct (from_str nm) as [newn|] eqn:En; [|exact Hi]. apply from_str_valid in En.
+  destruct (open_stack PAllow w) as [op|] eqn:Eo; [apply (open_ok _ _ _ Hi) in Eo|exact Hi].
+  destruct (w_unmerged (op_world op)); [inv_leaf|].
+  destruct (negb (head_top_ok op)); [inv_leaf|].
+  destruct (resolve_names _ _ _) as [ps| |] eqn:Er; cbn [rres_bind]; try inv_leaf.
+  destruct (resolve_names_ok _ _ _ _ _ Epr Er) as [Hd Hin].
+  destruct (_ && _) eqn:Eg; [inv_leaf|].
+  destruct (Nat.ltb _ _); [inv_leaf|].
+  rewrite squash_exit_fst.
+  apply transact_inv; [exact Eo| |apply frame_squash_closure].
+  intros W. apply squash_closure_wf; [exact W|]. now apply squash_pre_begin.
+Qed.
+
 (* ---------------------------------------------------------------- the theorems *)
 
 Theorem step_inv : forall lower_s, LowerOK lower_s ->
@@ -1413,6 +1637,7 @@ Proof.
   - now apply run_log_clear_inv.
   - now apply run_edit_inv.
   - now apply run_rebase_inv.
+  - now apply run_squash_inv.
   - destruct (open_stack PAllow w) as [op|] eqn:Eo; [|exact Hi]. now apply (open_ok _ _ _ Hi) in Eo as [H _].
   - now apply run_git_inv.
   - now apply run_git_inv.
